@@ -15,7 +15,7 @@ LEVEL = "model_checking"
 RULE = (
     "well-formed part: ept_map replies encoded by the independent NDR64 encoder for tower lists of 0..6 towers whose lengths cover every residue mod 8 in every list position "
     "(lists <=2 (quick) / <=3 (thorough) towers: full product over 8 residues; longer lists: residues cycled), floors from {UUID, RPC-CO, TCP(distinct port per tower), UDP, IP, named pipe, "
-    "unknown 0x55}, TCP floor in tower {none,0,1,last} at floor position {3,0,last}, status in {0,0x16C9A0D6,1,2^32-1}, handle {null,set}; each delivered through the whole client stack "
+    "unknown 0x55}, TCP floor in tower {none,0,1,last} at floor position {3,0,last}, status in {0,0x16C9A0D6,1,2^32-1}, handle {null,set}, response alloc_hint {exact, 0, larger}; each delivered through the whole client stack "
     "(sync, and async on the virtual loop) by the reference DC: the second connection must go to the port of the first tower that has a TCP floor; status!=0 or no TCP floor => error and "
     "no second connection; EptMapResult.unpack must return all towers (unknown floors preserved). adversarial part: every prefix of 20 replies, the count fields (num_towers, max, actual, "
     "per-tower max/length/floor count) substituted by {0,1,2,actual+-1,2^16,2^32,2^40,2^63,2^64-1} singly and in pairs, all-zero replies of length 0..64: return or raise within "
@@ -90,6 +90,10 @@ def setup(seed: int):
     return _st["rk"], _st["blob"]
 
 
+_HINTS = ["padded", "zero", "max"]  # alloc_hint of the ept_map response: exact, "no hint supplied" (0), larger than the stub
+_hint_i = [0]
+
+
 def through_stack(seed: int, api: str, stub: bytes, isd_port: t.Optional[int], step_limit: int):
     """-> (status, value, attempts) with status ok|exc|net|budget|blocks"""
     import dpapi_ng
@@ -97,6 +101,8 @@ def through_stack(seed: int, api: str, stub: bytes, isd_port: t.Optional[int], s
     rk, blob = setup(seed)
     dc = refdc.DC([rk], now=(361, 10, 12), isd_port=isd_port or 1)
     dc.epm_stub = stub
+    _hint_i[0] += 1
+    dc.reply_alloc_hint = _HINTS[_hint_i[0] % 3]
     with transport.network(dc) as hub, secctx.scripted_client(lambda u, p, **kw: secctx.ScriptedContext([b"C1"], 16)):
         try:
             if api == "sync":
